@@ -396,6 +396,13 @@ def c08(tier):
     for p in mate1[: (2000 if full else 150)]:
         for d in ([1, 2, 3, 4] if full else [1, 3]):
             plan.append(plan_line(p["fen"], "depth %d" % d, tt=rnd.choice(["fresh", "warm"]), tag="m1"))
+    # session histories in which an earlier search of the SAME position was restricted by searchmoves to the moves that do not mate: what
+    # that search leaves in the table is the value of a subset of the moves, and the next unrestricted go (no position command in between,
+    # same table epoch) must still play the mate
+    for p in mate1[: (600 if full else 80)]:
+        d0 = rnd.choice([1, 2, 3, 4])
+        plan.append(plan_line(p["fen"], "depth %d" % d0, sm=["@nonmating"], tt=rnd.choice(["fresh", "warm"]), tag="m1sm"))
+        plan.append(plan_line(p["fen"], "depth %d" % rnd.choice([1, 1, 2, 3]), tt="again", tag="m1"))
     # announcements: shallow searches over many sparse and game positions (where the all-moves-pruned value shows), real session histories:
     # the same root repeated, then its table reused
     n = 40000 if full else 9000
